@@ -38,6 +38,6 @@ def read_keylog_from_file(path):
         logging.error("Keylog file not found")
         exit()
 
-    file = open(path, "r")
+    file = open(path, "r", errors="replace")
 
     return get_keys_from_string(file.read())
